@@ -89,7 +89,6 @@ P = {
   technique="origin (ownership) dataflow on pos_to_linecol sites"),
 "C07": dict(
   decided={
-    "C07.d": "the tool-support bookkeeping (reads _tx_position/_tx_filename of the target) is not reachable, within one iteration, from the statement that binds a builtin",
     "C07.e": "by evaluation of a resolver round: an unresolved reference takes the builtins entry of its name only if the type conforms; otherwise the round fails with a TextXSemanticError of type 'Unknown object' located by the model's own parser and file",
     "C07.a": "by evaluation of PlainName.__call__ over sample models (stand-ins for get_children/get_model/textx_isinstance): 0 conforming objects of the name -> None, 1 -> that object, >= 2 -> TextXSemanticError; same-named objects of unrelated classes do not count; only the model containing the referencing object is searched",
     "C07.b": "resolve_one_step: builtins consulted only after the provider returned None, accepted only under textx_isinstance; still None -> UNKNOWN_OBJ_ERROR; Postponed never stored",
@@ -202,7 +201,6 @@ P = {
     "C15.d": "_release_user_obj_attrs has no exit or guard depending on state other than the ids recorded at creation",
     "C15.e": "the id of a user object is recorded immediately when its storage is created (no may-raise statement in between)",
     "C15.f": "the handler that protects the end of the construction discharges for every model of the attempt (no filter on the already deleted marker); the marker is tested for existence",
-    "C15.g": "ModelRepository.remove_model locates the entry by the stored model, not by a key recomputed from the model",
     "C14.a": "(shared with C14) instrumentation restored on every exit", "C14.e": "(shared with C14) immutable-model path restores directly", "C14.f": "(shared with C14) restoring handlers are catch-all",
     "C18.c": "(shared with C18) handlers removing models are catch-all", "C18.d": "(shared with C18) inner handler removes every model of the attempt", "C18.f": "(shared with C18) remove_model scans the store",
   },
@@ -231,10 +229,10 @@ P = {
     "C17.c": "ImportURI lookup order: own model, local models, builtin models, first hit",
     "C17.d": "file keys are abspath-normalised on every store and lookup; synthetic keys are not looked up through a normalising API",
     "C17.f": "the repository loaders register the importing model before they load anything (dominance on the path with an importer)",
-    "C17.g": "ImportURI connects a model to the metamodel's global repository whenever there is one (no further condition)",
     "C17.h": "with a global repository the cache is consulted for every load, direct or nested",
     "C17.e": "ImportURI recognises an object found in the own / a loaded / a builtin model by None-test, so the documented lookup order is not skipped for falsy objects",
     "C17.m": "the repositories as a state machine, by evaluation (classes instantiated by interpreting their __init__, stand-in meta-model): a file is loaded once and later loads return the same object; the model is registered under its file whether or not the pre-reference-resolution callback ran; it is visible in local_models only when asked for; a loaded model's own repository shares all_models; string-loaded models get one invented name each",
+    "C17.n": "the ImportURI provider by evaluation: lookup asks the own model, then the imported models in import order, then the builtin models, and returns the first answer; load_models gives a model without repository one of its own (sharing the meta-model's all_models when there is a global repository) and loads the imports with the encoding given; every import is loaded once with the encoding of the load, the importing model's parameters and add_to_local_models off exactly for named imports under importAs",
   },
   declined="identity of cross-file targets and file-open counts for arbitrary import graphs",
   technique="CFG dominance + decision table + key-normalisation dataflow"),
@@ -248,7 +246,6 @@ P = {
     "C18.c": "cleanup-and-reraise handlers that remove models are catch-all",
     "C18.d": "the handler protecting the object processors removes every model of the attempt, not only those that still carry the marker",
     "C18.e": "the construction marker is tested for existence, not for its value",
-    "C18.f": "ModelRepository.remove_model locates the entry by the stored model (string-loaded models live under synthetic keys)",
     "C18.g": "per-load snapshots used by failure handlers are frame-local (loads nest through imports)",
     "C18.j": "by evaluation: remove_model / remove_models remove exactly the given models from both tables, also a model without file name; after a failing load the file is not visible in local_models",
   },
